@@ -265,6 +265,19 @@ theorem mutate_states_old_or_new {α} (empty old new : α) (o : Outcome) :
   · rcases hd with h | h | h | h | h | h | h <;> subst h <;> simp
   · rcases hd with (h | h | h | h | h | h | h) | (h | h | h | h | h | h | h) <;> subst h <;> simp
 
+/-- calls that do not touch the directory content -/
+def inertCalls : List String := ["MkdirAll", "FileMode", "Stat", "IsNotExist", "Name"]
+
+/-- the names of the model's steps, in order -/
+def stepNames : List String := ["CreateTemp", "Chmod", "Write", "Sync", "Close", "Rename", "syncDir"]
+
+/-- **The code's `writeFileAtomic` (both copies) performs exactly the model's steps in the model's order** — regenerated from
+    the source: any additional call on `os` or the temp file in the main flow (an unlink before the rename, a direct
+    write to the path, a second rename) breaks this. -/
+theorem wfa_steps_match_model :
+    Gen.wfaStepsApp.filter (fun c => !inertCalls.contains c) = stepNames ∧
+    Gen.wfaStepsMcp.filter (fun c => !inertCalls.contains c) = stepNames ∧ stepNames.length = steps.length := by decide
+
 theorem mutate_final {α} (empty old new : α) (o : Outcome) :
     ((mutateTrace empty old new o).getLast?.map (·.target)) = some (some (if o = .applied then new else old)) := by
   cases o <;> simp [mutateTrace, trace, steps, apply, finish]
